@@ -953,11 +953,13 @@ func healthScenario(s *verifsim.Sim) {
 		}
 		return true
 	}
+	// (no scheduling point inside: the flags are read through the overlay accessor, so the
+	// string is one consistent snapshot and so is the triple taken with it)
 	snapAlive := func() string {
 		var b strings.Builder
 		for _, n := range w.nodes {
 			for _, nt := range w.types {
-				if implAlive(n, nt.Index()) {
+				if n.d.VerifAliveNow(nt) {
 					b.WriteByte('1')
 				} else {
 					b.WriteByte('0')
@@ -1039,9 +1041,18 @@ func healthScenario(s *verifsim.Sim) {
 				// both ends - must obey the statement exactly as a sequential one.
 				q0, e0, a0 := quietNow(), epoch, snapAlive()
 				d, _, _, err := g.g.SelectWithExclusionResult(nt, strict, excl)
-				if q0 && quietNow() && epoch == e0 && snapAlive() == a0 {
+				q1, e1, a1 := quietNow(), epoch, snapAlive()
+				if q0 && q1 && e1 == e0 && a1 == a0 {
 					s.Probe("health.concurrent-select-in-quiet-interval")
-					w.judgeSelect(g, gi, nt, strict, excl, implAlive, d, err, false, "concurrent configuration, quiet interval: ")
+					snapOf := func(n *hNode, idx int) bool { // the state of the quiet interval, not of the moment of judging
+						for ti, t := range w.types {
+							if t.Index() == idx {
+								return a0[n.i*len(w.types)+ti] == '1'
+							}
+						}
+						return false
+					}
+					w.judgeSelect(g, gi, nt, strict, excl, snapOf, d, err, false, "concurrent configuration, quiet interval: ")
 				}
 				if err == nil {
 					if w.nodeOf(d) == nil {
